@@ -1,10 +1,13 @@
 import Ptn.C11.Model
+import Ptn.C11.Value
 /-! Line-protocol handler for the C11 model (core Lean only).
 
   mat <shape…> | <out…> | <in…>            → `T=<shape after transposition> rows=<m> cols=<n>` | error
   qr <mode> <shape…> | <q_legs…> | <r_legs…> → `Q=<shape> R=<shape> bond=<b> pad=<p> qlegs=<…> rlegs=<…>` | error
   svd <mode> <shape…> | <u_legs…> | <v_legs…> → `U=<shape> S=<k> Vh=<shape> ulegs=<…> vlegs=<…>` | error
   tsvd <kept> <shape…> | <u_legs…> | <v_legs…> → as svd (truncated to `kept` singular values)
+  matidx <shape…> | <out…> | <in…> | <i> <j>  → flat C-order position in the INPUT of the entry that
+                                             `tensor_matricization` puts at `[i, j]` (value-level model) | error
   contr <ucontr|vcontr|equal>              → `<a> <b>`: exponents of S (in halves) absorbed by U and Vh
 
   modes: reduced | full | keep.  Empty lists are written as nothing between the bars.
@@ -58,6 +61,19 @@ def handle (args : List String) : String :=
       | some m => s!"T={showNats m.shapeT} rows={m.rows} cols={m.cols}"
       | none => "error"
     | none => "bad-op"
+  | "matidx" :: rest =>
+    match splitBars rest with
+    | [a, b, c, d] =>
+      match parseNats a, parseNats b, parseNats c, parseNats d with
+      | some sh, some out, some inn, some [i, j] =>
+        match (Arr.matricize (⟨sh, fun k => k⟩ : Arr Nat) out inn) with
+        | some m =>
+          match m.shape with
+          | [rows, cols] => if i < rows ∧ j < cols then toString (m.get [i, j]) else "bad-op"
+          | _ => "error"
+        | none => "error"
+      | _, _, _, _ => "bad-op"
+    | _ => "bad-op"
   | "qr" :: mode :: rest =>
     match parseMode mode, parseThree rest with
     | some md, some (sh, a, b) =>
